@@ -48,6 +48,57 @@ End Unfold.
   simp_ELe simp_ELt simp_EEquals simp_EAlways simp_ESometime simp_ESometimeBefore simp_ESometimeAfter simp_EAtMostOnce
   : simp_unfold.
 
+
+(* unfolding equations of [simp_ok] *)
+Section UnfoldOk.
+  Variable G : cfg.
+  Variable n : nat.
+  Lemma ok_EBool b : simp_ok G n (EBool b) = true. Proof. destruct n; reflexivity. Qed.
+  Lemma ok_EInt z : simp_ok G n (EInt z) = true. Proof. destruct n; reflexivity. Qed.
+  Lemma ok_EReal q : simp_ok G n (EReal q) = true. Proof. destruct n; reflexivity. Qed.
+  Lemma ok_EObj o : simp_ok G n (EObj o) = true. Proof. destruct n; reflexivity. Qed.
+  Lemma ok_EParam p : simp_ok G n (EParam p) = true. Proof. destruct n; reflexivity. Qed.
+  Lemma ok_EVar v t : simp_ok G n (EVar v t) = true. Proof. destruct n; reflexivity. Qed.
+  Lemma ok_EFluent f l : simp_ok G n (EFluent f l) = forallb (simp_ok G n) l. Proof. destruct n; reflexivity. Qed.
+  Lemma ok_EIFun f l : simp_ok G n (EIFun f l) = forallb (simp_ok G n) l. Proof. destruct n; reflexivity. Qed.
+  Lemma ok_EAnd l : simp_ok G n (EAnd l) = forallb (simp_ok G n) l. Proof. destruct n; reflexivity. Qed.
+  Lemma ok_EOr l : simp_ok G n (EOr l) = forallb (simp_ok G n) l. Proof. destruct n; reflexivity. Qed.
+  Lemma ok_EPlus l : simp_ok G n (EPlus l) = forallb (simp_ok G n) l. Proof. destruct n; reflexivity. Qed.
+  Lemma ok_ETimes l : simp_ok G n (ETimes l) = forallb (simp_ok G n) l. Proof. destruct n; reflexivity. Qed.
+  Lemma ok_ENot a : simp_ok G n (ENot a) = simp_ok G n a. Proof. destruct n; reflexivity. Qed.
+  Lemma ok_EAlways a : simp_ok G n (EAlways a) = simp_ok G n a. Proof. destruct n; reflexivity. Qed.
+  Lemma ok_ESometime a : simp_ok G n (ESometime a) = simp_ok G n a. Proof. destruct n; reflexivity. Qed.
+  Lemma ok_EAtMostOnce a : simp_ok G n (EAtMostOnce a) = simp_ok G n a. Proof. destruct n; reflexivity. Qed.
+  Lemma ok_EForall vs a : simp_ok G n (EForall vs a) = simp_ok G n a. Proof. destruct n; reflexivity. Qed.
+  Lemma ok_EImplies a b : simp_ok G n (EImplies a b) = simp_ok G n a && simp_ok G n b. Proof. destruct n; reflexivity. Qed.
+  Lemma ok_EIff a b : simp_ok G n (EIff a b) = simp_ok G n a && simp_ok G n b. Proof. destruct n; reflexivity. Qed.
+  Lemma ok_EMinus a b : simp_ok G n (EMinus a b) = simp_ok G n a && simp_ok G n b. Proof. destruct n; reflexivity. Qed.
+  Lemma ok_EDiv a b : simp_ok G n (EDiv a b) = simp_ok G n a && simp_ok G n b. Proof. destruct n; reflexivity. Qed.
+  Lemma ok_ELe a b : simp_ok G n (ELe a b) = simp_ok G n a && simp_ok G n b. Proof. destruct n; reflexivity. Qed.
+  Lemma ok_ELt a b : simp_ok G n (ELt a b) = simp_ok G n a && simp_ok G n b. Proof. destruct n; reflexivity. Qed.
+  Lemma ok_EEquals a b : simp_ok G n (EEquals a b) = simp_ok G n a && simp_ok G n b. Proof. destruct n; reflexivity. Qed.
+  Lemma ok_ESometimeBefore a b : simp_ok G n (ESometimeBefore a b) = simp_ok G n a && simp_ok G n b. Proof. destruct n; reflexivity. Qed.
+  Lemma ok_ESometimeAfter a b : simp_ok G n (ESometimeAfter a b) = simp_ok G n a && simp_ok G n b. Proof. destruct n; reflexivity. Qed.
+  Lemma ok_EExists vs a :
+    simp_ok G n (EExists vs a) =
+    simp_ok G n a &&
+    (let body := simp G n a in
+     let vs0 := prune vs body in
+     match elim_step G vs0 body with
+     | None => true
+     | Some _ =>
+         match n with
+         | O => false
+         | S n' => let '(vs1, b1) := elim_loop G (length vs0) vs0 body in simp_ok G n' (mkExists vs1 b1)
+         end
+     end).
+  Proof. destruct n; reflexivity. Qed.
+End UnfoldOk.
+
+#[export] Hint Rewrite ok_EBool ok_EInt ok_EReal ok_EObj ok_EParam ok_EVar ok_EFluent ok_EIFun ok_EAnd ok_EOr ok_EPlus ok_ETimes
+  ok_ENot ok_EAlways ok_ESometime ok_EAtMostOnce ok_EForall ok_EImplies ok_EIff ok_EMinus ok_EDiv ok_ELe ok_ELt ok_EEquals
+  ok_ESometimeBefore ok_ESometimeAfter ok_EExists : ok_unfold.
+
 (* ---------------------------------------------------------------- free variables of the list constructors *)
 Definition fvl (l : list expr) : list N := flat_map free_vars l.
 
